@@ -633,6 +633,12 @@ func gapBoard(r *RNG, size int, c *Ctx) *tak.Position {
 		if r.Chance(1, 3) {
 			h = 2 + r.Intn(8)
 		}
+		if size == 8 && r.Chance(1, 3) {
+			// a tower in the gap (Tak has no height limit; the 64-bit stack word holds the top 64 stones only): the
+			// slide onto it is as legal, and as winning, as onto a single flat
+			h = 56 + r.Intn(16)
+			c.Count("gap.enemyflat.tower~" + strconv.Itoa(h/4*4))
+		}
 		board[gy][gx] = stackOf(r, tak.MakePiece(other, tak.Flat), h, 3)
 		c.Count("gap.enemyflat")
 	case gapKind < 8:
